@@ -293,7 +293,7 @@ func c14GateBody(w *World, r *Report, gate, vas *ssa.Function) {
 		if rp.Class != RetSuccess {
 			continue
 		}
-		if ex, _ := g.PathExists(entryPos(gate), posOf(rp.Ret), Avoid{}.withEdges(guard...)); ex {
+		if ex, _ := g.PathExists(entryPos(gate), retPos(rp), Avoid{}.withEdges(guard...)); ex {
 			okAll = false
 		}
 	}
@@ -492,8 +492,8 @@ func c14Recurses(w *World, r *Report, vas, vss *ssa.Function) {
 		if rp.Class != RetSuccess {
 			continue
 		}
-		ex2, _ := g.PathExists(entryPos(walker), posOf(rp.Ret), Avoid{}.withEdges(schemaNil...).withInstrs(single))
-		loopSeen, _ := g.PathExists(entryPos(walker), posOf(rp.Ret), avoidInstrs(dependenciesCalls(walker)...))
+		ex2, _ := g.PathExists(entryPos(walker), retPos(rp), Avoid{}.withEdges(schemaNil...).withInstrs(single))
+		loopSeen, _ := g.PathExists(entryPos(walker), retPos(rp), avoidInstrs(dependenciesCalls(walker)...))
 		r.Check(!ex2 && !loopSeen, "C14/RECURSES", fmt.Sprintf("success-return#%d", i), w.InstrPos(rp.Ret), "success is reported only after the chart's schema decision and the walk over Dependencies()", "the walk can report success for a chart without consulting its schema or visiting its dependencies (early return)")
 	}
 	r.Check(rec2 && !ex, "C14/RECURSES", "own-schema", w.InstrPos(single), "the chart's own schema is applied whenever it is present and its error is recorded", "the chart's own schema can be skipped although present, or its error is dropped")
@@ -587,7 +587,7 @@ func c14WritesAfterGate(w *World, r *Report, ef *Effects, gate *ssa.Function) {
 			gg := o.real.Graph(gf)
 			okc := true
 			for _, rp := range gg.classifyReturns() {
-				if rp.Class == RetSuccess && !gg.AfterOK(gcall, posOf(rp.Ret)) {
+				if rp.Class == RetSuccess && !gg.AfterOK(gcall, retPos(rp)) {
 					okc = false
 				}
 			}
@@ -677,7 +677,7 @@ func c14Lint(w *World, r *Report, vss *ssa.Function) {
 		if rp.Class != RetSuccess {
 			continue
 		}
-		if ex, _ := g.PathExists(entryPos(fn), posOf(rp.Ret), Avoid{}.withEdges(empty...).withInstrs(vc)); ex {
+		if ex, _ := g.PathExists(entryPos(fn), retPos(rp), Avoid{}.withEdges(empty...).withInstrs(vc)); ex {
 			okAll = false
 		}
 	}
